@@ -1,7 +1,7 @@
 """C04 - every generated event is well-formed, time-ordered and produced in bounded work (decided clauses)."""
 from fractions import Fraction
 
-from .. import astu, callgraph, cfg as cfgm, genbb, ir, pathsum, sccp, tv, tvcheck
+from .. import astu, callgraph, cfg as cfgm, genbb, ir, pathsum, sccp, tv, tvcheck, tvrun
 from ..framework import Report, where
 from ..project import AnalysisBroken
 
@@ -145,6 +145,7 @@ def run(tier, seed):
     rep.analysed['emission sites with constant energy'] = nen
     _counts(rep, ctx, flows, cg)
     _loops(rep, flows)
+    _nan_exits(rep, ctx)
     _labels(rep, ctx)
     rep.floor('SPECIES', nsp, 15)
     rep.floor('TIMES.nonneg', ntm, 1200)
@@ -311,6 +312,79 @@ def _loops(rep, flows):
                             None if ok else ['deviates in the loop: lines %s; on every iteration: %s; exit depends on loop '
                                              'values: %s' % ([g.nodes[i].line for i in draws_in],
                                                              [g.nodes[i].line for i in fresh], dep)])
+
+
+def _nan_exits(rep, ctx):
+    """LOOP.nan-exit, see rules/nanexit.py"""
+    from .. import cpp2ir
+    from ..rules import nanexit
+    from ..tvcheck import REF_REL, _port_helpers
+    rep.rule('LOOP.nan-exit', 'a rejection loop of a ported unit leaves the loop when its acceptance comparison is unordered '
+             '(NaN operand) wherever the reference loop does: the unit has no more loops that *stay* on an unordered '
+             'comparison than the reference unit, loops over polynomials of literals/deviates/integers excepted '
+             '(`!(r > f)` and `r <= f` differ exactly there: one degraded event versus an unbounded number of deviates)')
+    nloops = 0
+    for name in sorted(ctx.units):
+        u = ctx.units[name]
+        if name in ('genbbsub', 'rnd1'):
+            continue
+        cfn, kernel = tvrun.select(ctx.prog, ctx.cands, name)
+        if cfn is None:
+            continue
+        fints = {v for v in _f_names(u) if _f_is_int(u, v)}
+        lf = nanexit.rejection_loops(cfgm.build(list(u.body)), fints)
+        fns = [cfn] + ([kernel] if kernel is not None else []) + sorted(_port_helpers(ctx, cfn, kernel).values(),
+                                                                         key=lambda f: f['name'])
+        lc = []
+        for f in fns:
+            tree, lo = cpp2ir.lower_function(f, ctx.sigs)
+            cints = {k for k, t in lo.locals.items() if t.replace('const ', '').strip() in cpp2ir.INT_TYPES} | \
+                    {p['name'] for p in f['params'] if p['ty'].replace('const ', '').strip() in cpp2ir.INT_TYPES}
+            for l in nanexit.rejection_loops(cfgm.build(tree), cints):
+                lc.append((f, l))
+        if not lf and not lc:
+            continue
+        nloops += len(lc)
+        for f, l in lc:
+            if not l['decided']:
+                rep.cannot_decide('LOOP.nan-exit', where(f, l['line']), '%s: the exit condition `%s` of the rejection loop at '
+                                  'line %d is not a combination of comparisons' % (f['name'], l['exits'][0][0], l['line']))
+        allowance = sum(1 for l in lf if l['trapped'] and not l['nanfree'])
+        bad = [(f, l) for f, l in lc if l['trapped'] and not l['nanfree']]
+        for f, l in lc:
+            ok = not (l['trapped'] and not l['nanfree']) or len(bad) <= allowance
+            rep.add('LOOP.nan-exit', '%s:%s' % (f['name'], l['exits'][0][0][:40] if l['exits'] else l['line']),
+                    where(f, l['line']),
+                    '%s: the rejection loop at line %d %s' % (f['name'], l['line'],
+                        'compares only polynomials of literals, deviates and integers' if l['nanfree'] and l['trapped'] else
+                        'leaves the loop on an unordered comparison' if not l['trapped'] else
+                        'stays on an unordered comparison' + (', as a loop of the reference unit does' if ok else
+                                                            ' where no loop of the reference unit does')), ok,
+                    None if ok else ['exit tests (condition, stays in the loop when unordered): %s' % l['exits'],
+                                     'the reference unit %s (%s:%d) has %d loop(s) that stay on an unordered comparison; '
+                                     'this unit has %d' % (name, REF_REL, u.line, allowance, len(bad)),
+                                     'a NaN operand (e.g. an unset matrix element, a spectrum evaluated outside its '
+                                     'domain) makes this loop draw deviates for ever where the reference returns'])
+    rep.analysed['rejection loops of ported units (NaN polarity)'] = nloops
+    rep.floor('LOOP.nan-exit', nloops, 17)
+
+
+def _f_names(u):
+    out = set()
+    for s in tvrun._walk_stmts(u.body):
+        for e in s[1:]:
+            if isinstance(e, tuple):
+                for x in ir.subexprs(e):
+                    if x[0] in ('var', 'idx'):
+                        out.add(x[1])
+    return out
+
+
+def _f_is_int(u, v):
+    t = u.types.get(v)
+    if t:
+        return t.startswith('integer')
+    return v[:1] in 'ijklmn'
 
 
 def _natural_loop(g, preds, tail, head):
